@@ -217,6 +217,7 @@ class Ctx:
         self.seed = seed
         self.rng = random.Random(seed)
         self.escalated = False
+        self.source_changed = False
         self.lean = None
         self.evaluations = 0
         self.nontrivial = set()
@@ -231,7 +232,12 @@ class Ctx:
 
     # ---- budgets ----
     def budget(self, quick, thorough):
-        return thorough if (self.tier == "thorough" or self.escalated) else quick
+        if self.tier == "thorough" or self.escalated:
+            return thorough
+        if self.source_changed:
+            # an anchored source file differs from the committed fingerprint: widen the generators
+            return min(thorough, quick * 4)
+        return quick
 
     def subrng(self, tag):
         return random.Random("%s/%s/%s" % (self.seed, self.prop, tag))
@@ -270,6 +276,33 @@ class Ctx:
         self.notes.append(s)
 
 
+def ast_fingerprint(path):
+    import ast
+    try:
+        return hashlib.sha256(ast.dump(ast.parse(open(path).read())).encode()).hexdigest()[:16]
+    except Exception as ex:
+        return "unparsable:%s" % type(ex).__name__
+
+
+def changed_anchors(prop):
+    """anchored files (properties.jsonl) whose comment/whitespace-insensitive AST hash differs from
+    harness/fingerprints.json (committed; written by tools/update_fingerprints.py at development time)"""
+    try:
+        fps = json.load(open(os.path.join(VERIF, "harness", "fingerprints.json")))
+        anchors = None
+        for l in open(os.path.join(VERIF, "properties.jsonl")):
+            d = json.loads(l)
+            if d["id"] == prop:
+                anchors = d["anchors"]["files"]
+        out = []
+        for f in anchors or []:
+            if fps.get(f) != ast_fingerprint(os.path.join(REPO, f)):
+                out.append(f)
+        return out
+    except Exception:
+        return []
+
+
 def load_known(prop):
     path = os.path.join(VERIF, "known_findings.json")
     if not os.path.exists(path):
@@ -297,6 +330,10 @@ def run_check(mod, tier, seed, replay=None):
         print("REPLAY %s: %s" % (replay, "property holds on this input now" if ok else "still failing"))
         return 0 if ok else 1
     ctx.lean = lean_prepare(prop, tier)
+    changed = changed_anchors(prop)
+    if changed:
+        ctx.source_changed = True
+        ctx.note("anchored source differs from the committed AST fingerprint (%s): generator budgets widened x4" % ", ".join(changed))
     if ctx.lean.broken:
         ctx.escalated = True
     exit_code = 0
@@ -386,6 +423,7 @@ def write_evidence(mod, ctx, nviol, known_hit, infra_error):
         "histogram": dict(sorted(ctx.hist.items())),
         "known_findings_hit": sorted(known_hit.keys()),
         "escalated_to_thorough_budget": ctx.escalated,
+        "anchored_source_changed": ctx.source_changed,
         "notes": ctx.notes,
     }
     if infra_error:
